@@ -136,6 +136,7 @@ func buildTable() *Node {
 			leaflist("tags", "string"),
 			cont("pres", presence(), leaf("inner", "string")),
 			cont("sub", leaf("x", "string"), leaf("y", "int32")),
+			cont("dc", leaf("dflt", "string", def("d0")), leaf("other", "string"), cont("in", leaf("z", "string"))),
 			list("l1", "name",
 				leaf("name", "string"), leaf("descr", "string"), leaf("descr-long", "string"),
 				leaf("mtu", "uint16"), leaf("defmtu", "uint16", def("1500")), leaflist("tags", "string"),
